@@ -1,3 +1,5 @@
+#[cfg(feature = "iggy_verif")]
+use iggy::verif::tokio;
 use crate::compat::index_rebuilding::index_rebuilder::IndexRebuilder;
 use crate::state::system::PartitionState;
 use crate::streaming::batching::batch_accumulator::BatchAccumulator;
